@@ -7,7 +7,74 @@ from harness import families as F
 A_CLAUSES = ("C13.", "C02.unjustified", "C01.lacking", "C01.pull_error")
 
 
+def _rd(spec):
+    from dateutil.relativedelta import relativedelta
+    from datetime import timedelta
+
+    return relativedelta(**spec["rd"]) if "rd" in spec else timedelta(**spec["td"])
+
+
+def run_calendar(case):
+    """DelayFixed with calendar delays (relativedelta months/years, documented as allowed) on the real composition: a daily source, a consumer
+    with a calendar or day step; every delivered value must be the source's publication for the request shifted by every delay (each clamped at the start)"""
+    from datetime import datetime, timedelta
+
+    import finam as fm
+    from core.runner import viol
+
+    start = datetime(*case["start"])
+    end = start + timedelta(days=case["days"])
+    delays = [_rd(d) for d in case["delays"]]
+    published, received = {}, []
+
+    def gen(t):
+        published[t] = float(t.toordinal())
+        return published[t]
+
+    source = fm.components.CallbackGenerator(callbacks={"Out": (gen, fm.Info(time=None, grid=fm.NoGrid()))}, start=start, step=timedelta(days=1))
+    consumer = fm.components.DebugConsumer(inputs={"In": fm.Info(time=None, grid=fm.NoGrid())}, callbacks={"In": lambda _n, d, t: received.append((t, float(fm.data.get_magnitude(d).reshape(-1)[0])))}, start=start, step=_rd(case["step"]))
+    comp = fm.Composition([source, consumer] if case["order"] == "PC" else [consumer, source], print_log=False, log_level=50)
+    link = source.outputs["Out"]
+    if case.get("scale"):
+        link = link >> fm.adapters.Scale(1.0)
+    for d in delays:
+        link = link >> fm.adapters.DelayFixed(d)
+    link >> consumer.inputs["In"]
+    res = dict(n=1, states=0, transitions=0, traces=1, nontrivial=0, counters={"calendar_runs": 1}, violations=[])
+    try:
+        comp.run(end_time=end)
+    except Exception as e:  # noqa
+        res["violations"].append(viol(dict(kind="calendar_delay", how="exception", error=type(e).__name__), f"calendar delays {case['delays']} step {case['step']} start {case['start']}: {type(e).__name__}: {str(e)[:150]}", dict(case, calendar=True)))
+        return res
+    wrong = []
+    for t, value in received:
+        shifted = t
+        for d in reversed(delays):  # the adapter next to the consumer shifts first
+            shifted = max(shifted - d, start)
+        res["states"] += 1
+        if shifted != t:
+            res["nontrivial"] = 1
+        if published.get(shifted) != value:
+            wrong.append((t.isoformat(), shifted.isoformat(), datetime.fromordinal(int(value)).isoformat()))
+    res["transitions"] = res["states"]
+    if wrong or len(received) < 3:
+        res["violations"].append(viol(dict(kind="calendar_delay", how="wrong_source_time" if wrong else "too_few_deliveries"), f"calendar delays {case['delays']} step {case['step']} start {case['start']}: (request, expected source time, delivered source time) {wrong[:3]} ({len(wrong)} of {len(received)})", dict(case, calendar=True)))
+    res["sample"] = dict(case)
+    return res
+
+
+def calendar_cases(tier):
+    q = tier == "quick"
+    delays = [[dict(rd=dict(months=1))], [dict(rd=dict(months=2))], [dict(rd=dict(years=1))], [dict(rd=dict(months=1, days=3))], [dict(rd=dict(months=1)), dict(td=dict(days=2))], [dict(td=dict(days=2)), dict(rd=dict(months=1))],
+              [dict(rd=dict(months=1)), dict(rd=dict(months=1))], [dict(td=dict(days=30))], [dict(rd=dict(weeks=2))]]
+    steps = [dict(rd=dict(months=1)), dict(td=dict(days=11)), dict(rd=dict(days=45))] + ([] if q else [dict(rd=dict(months=2)), dict(td=dict(days=1))])
+    starts = [(2001, 1, 1), (2004, 1, 31), (2003, 12, 15)] + ([] if q else [(2000, 2, 29), (2001, 3, 31)])
+    return [dict(calendar=True, start=list(st), days=300 if q else 500, delays=d, step=sp, order=o, scale=sc) for st in starts for d in delays for sp in steps for o in ("PC", "CP") for sc in ((False,) if q else (False, True))]
+
+
 def replay(case):
+    if case.get("calendar"):
+        return run_calendar(case)["violations"]
     if "path" in case and "family" in case.get("cfg", {}):
         return acheck.replay_case(case, A_CLAUSES, acheck.judge_valid)
     return ccheck.replay(case)
@@ -74,12 +141,17 @@ def cfgs(tier):
 def run(tier, seed, agg):
     ccheck.run_cases(cfgs(tier), agg, seed)
     acheck.run_cases(a_cases(tier), A_CLAUSES, agg, acheck.judge_valid, seed)
+    from core.pool import pmap
+
+    for r in pmap(run_calendar, calendar_cases(tier), chunksize=2):
+        agg.add(r)
     return dict(
         level="model_checking",
         rule="explicit-state BFS over all interleavings of push(gap) and pull(t) (non-decreasing t on the half-hour lattice incl. repeated times and, behind DelayToPush, requests beyond the newest publication) "
         "for every chain of 1-3 delay adapters from DelayFixed(d in {0,.5,1,2.5,4}), DelayToPull(n in {1,2,3}, extra in {0,.5}), DelayToPush mixed with Scale (all singles, all pairs of a representative set, all triples of a smaller set); "
         "chains of fixed delays run to a fixpoint, chains with history-dependent adapters to the stated depth; on every pull the time argument reaching the source output and the delivered value must equal the reference "
-        "(max(t-d,start), n-th previous request - extra clamped at start, min(t, newest publication); composition of the maps, so delays add)",
+        "(max(t-d,start), n-th previous request - extra clamped at start, min(t, newest publication); composition of the maps, so delays add). "
+        "Calendar delays: DelayFixed with relativedelta months/years/weeks (single, mixed with day delays, chained) under a daily source and consumers with month / 11-day / 45-day steps over 300-500 days from several start dates (month ends, leap years), both listing orders: every delivery is the publication for the calendar-shifted request",
         bound=dict(lag_window_h=2.5 if tier == "quick" else 3, depth="6/5/4 (chain length 1/2/3)" if tier == "quick" else "8/7/6", lattice_h=0.5),
         assumptions=["start time = declared time of the source output", "scheduler clause: the same chains on a link of a 2-component composition explored with engine A (snapshot BFS + stateless DFS); the driver must neither update the consumer while the reference's shifted time is unpublished nor advance the producer without need"],
     )
